@@ -8,6 +8,7 @@ from fractions import Fraction as Fr
 
 import numpy as np
 
+from . import c16_ext as EXT
 from .common import Run, bool_s, frac_s, guarded, list_s, opt_s, run_driver
 
 META = {
@@ -23,23 +24,41 @@ META = {
     "it by < 1 px per side; snap_to moves by <= 1/2 px onto the other grid; grids differing in CRS, pixel size, "
     "orientation or sub-pixel offset beyond the isclose / 1e-8 thresholds are rejected by every operation.  The "
     "model is tied to /repo on every run by an exact behavioural correspondence (exhaustive small families on 10 "
-    "base grids, random large families and triples, huge integer shapes, threshold-straddling perturbations) and an independent "
-    "exact-Fraction pixel-set oracle on the real outputs (also on realistic UTM / lon-lat doubles).",
+    "base grids, random large families and triples, huge integer shapes, threshold-straddling perturbations, regions of every "
+    "container type in the same and in other CRSs incl. code-less ones) and an independent "
+    "exact-Fraction pixel-set / world-bounding-box oracle on the real outputs (also on realistic UTM / lon-lat doubles).",
     "note": "Trusted: Lean kernel + {propext, Classical.choice, Quot.sound}; numpy.isclose constants (read from the "
     "installed numpy each run and compared with the model's); affine.Affine arithmetic (shared rational model); "
     "numpy slice semantics Spec/PySlice (validated each run); pyproj for regions given in another CRS (the model "
     "starts from the re-projected vertices; curved edges between vertices are the recorded finding K3).  IEEE "
     "rounding is not modelled: proofs are over exact rationals, doubles are sampled by the float stream.",
-    "note_growth": "Growth round: model now also mirrors BoundingBox.buffered/span/width/height/shape/from_xy/from_points/"
+    "note_growth": "Growth round 1: model also mirrors BoundingBox.buffered/span/width/height/shape/from_xy/from_points/"
     "from_transform (as repaired on HEAD), GeoBox.pad, IEEE specials (nan, +-inf) in bbox_union/bbox_intersection via the "
-    "carrier PyF, and composes with the C02 model (gbox[roi], left/right/top/bottom, flipx/flipy).  NOT mirrored in the "
-    "anchor files: BoundingBox.to_crs/polygon/map_bounds/explore/boundary/qr2sample/aoi/aspect/range_x/range_y/__eq__/__hash__ "
-    "(to_crs, map_bounds, aoi are pyproj; the rest presentation); math.py maybe_int/snap_scale/clamp/align_*/snap_affine/"
+    "carrier PyF, and composes with the C02 model (gbox[roi], left/right/top/bottom, flipx/flipy).  Growth round 2 "
+    "(Model/C16Ext, Props/C16World, harness/c16_ext.py): the public entry points from their arguments to their results - "
+    "GeoBox.enclosing(region) with its dispatch on the region type (BoundingBox -> box() ring, Geometry -> coordinate "
+    "sequence), the region-CRS guard, GeoBoxBase.project in both directions with Geometry.to_crs as an abstract point map "
+    "(theorems hold for every such map; the driver gets pyproj's values as a table and the tie is exact on grids with a "
+    "power-of-two pixel size anchored at the CRS origin, over a CRS pool with EPSG-coded AND code-less CRSs - PROJ strings, "
+    "WKT - on both sides and every CRS against another spelling of itself), Geometry.boundingbox of the projected "
+    "coordinates; GeoBox.boundingbox / extent (linked to C02's) and translate_pix; world-coordinate end-to-end theorems "
+    "(enclosing(bbox).boundingbox contains every point of the bbox, the footprint is convex so same-CRS regions are covered "
+    "point by point, g.enclosing(h.extent) == h for members of the grid, (a|b).boundingbox >= a.boundingbox|b.boundingbox and "
+    "(a&b).boundingbox <= a.boundingbox&b.boundingbox on every invertible grid with equality on axis-aligned ones, project "
+    "there and back is the identity); BoundingBox as a value/sequence (__eq__ with boxes and tuples, __len__/__iter__/"
+    "__getitem__ incl. negative and out-of-range indices, points, range_x/range_y, aspect incl. ZeroDivisionError); "
+    "split_translation; the non-finite branches of split_float/is_almost_int/maybe_zero (and rejection of GeoBoxes with a "
+    "non-finite affine coefficient by every operation); list/tuple/generator argument forms of geobox_union_conservative/"
+    "geobox_intersection_conservative (a generator is refused with TypeError).  "
+    "NOT mirrored in the anchor files: BoundingBox.to_crs/map_bounds/aoi (pyproj), explore/boundary/qr2sample/__hash__/"
+    "__repr__ (__hash__ coherence with == is an oracle only); Geometry.to_crs beyond the pointwise map (resolution / "
+    "wrapdateline / check_and_fix options are never passed by this code; curved edges are the finding K3), shapely itself "
+    "(coordinate order, bounds); enclosing/project for EMPTY geometries; math.py maybe_int/snap_scale/clamp/align_*/snap_affine/"
     "snap_grid/_snap_edge*/data_resolution_and_offset/affine_from_axis/quasi_random_r2/edge_index/Bin1D/resolve_* "
-    "(C08/C14/C17/C20 own them; split_float/is_almost_int non-finite branches are oracle-only); geobox.py everything "
-    "outside the set operations (views, zoom, coordinates, GCPGeoBox, GeoBox.project's pyproj part, compute_crop with "
-    "regions, __rmul__, rotate, buffered, footprint, geographic_extent, __dask_tokenize__, svg/html) which belongs to "
-    "C02/C08/C09/C11/C19; geobox_union_conservative/geobox_intersection_conservative with generator (non-list) input.",
+    "(C08/C14/C17/C20 own them); geobox.py everything outside the set operations (views, zoom, coordinates, GCPGeoBox, "
+    "compute_crop with regions, __rmul__, rotate, buffered, footprint, geographic_extent, __dask_tokenize__, svg/html) "
+    "which belongs to C02/C08/C09/C11/C19; a non-linear (GCP) GeoBox as operand of enclosing/project; the axis-aligned "
+    "world-coordinate tightness of enclosing (< 1 pixel size per side) is an oracle, the theorem is stated in pixel space.",
     "technique": "Lean 4 proof over hand model + exhaustive/random differential correspondence with real code",
     "design_ref": "DESIGN.md §4 C16",
 }
@@ -47,7 +66,26 @@ META = {
 META["note"] += "  " + META.pop("note_growth")
 
 TAG_EPSG = {"1": 3857, "2": 4326, "3": 32633}
+# CRSs WITHOUT an EPSG code (crs.epsg is None): PROJ strings and a WKT definition.  Any shortcut that decides "same
+# CRS" from the EPSG code alone sees None == None for two different members of this part of the pool.
+TAG_DEF = {
+    "4": "+proj=laea +lat_0=48 +lon_0=9 +x_0=0 +y_0=0 +ellps=GRS80 +units=m +no_defs",
+    "5": "+proj=sinu +lon_0=0 +x_0=0 +y_0=0 +R=6371007.181 +units=m +no_defs",
+    "6": "wkt:+proj=aea +lat_1=-10 +lat_2=-30 +lat_0=0 +lon_0=130 +x_0=0 +y_0=0 +ellps=GRS80 +units=m +no_defs",
+}
+CRS_NAME = {"N": "none", "1": "3857", "2": "4326", "3": "32633", "4": "laea-proj", "5": "sinu-proj", "6": "aea-wkt"}
 _CRS_CACHE = {}
+_CRS_ALT = {}
+
+
+def crs_def(tag) -> str:
+    """the text the pool CRS `tag` is constructed from"""
+    import pyproj
+
+    if tag in TAG_EPSG:
+        return f"EPSG:{TAG_EPSG[tag]}"
+    d = TAG_DEF[tag]
+    return pyproj.CRS.from_proj4(d[4:]).to_wkt() if d.startswith("wkt:") else d
 
 
 def crs_of(tag):
@@ -56,8 +94,28 @@ def crs_of(tag):
     if tag == "N":
         return None
     if tag not in _CRS_CACHE:
-        _CRS_CACHE[tag] = CRS(f"EPSG:{TAG_EPSG[tag]}")
+        _CRS_CACHE[tag] = CRS(crs_def(tag))
     return _CRS_CACHE[tag]
+
+
+def crs_alt_def(tag, k=0) -> str:
+    """another spelling of the definition of the pool CRS `tag`"""
+    import pyproj
+
+    if tag in TAG_EPSG:
+        return [f"epsg:{TAG_EPSG[tag]}", pyproj.CRS.from_epsg(TAG_EPSG[tag]).to_wkt()][k % 2]
+    if TAG_DEF[tag].startswith("wkt:"):
+        return pyproj.CRS.from_proj4(TAG_DEF[tag][4:]).to_wkt("WKT1_GDAL")
+    return pyproj.CRS.from_proj4(TAG_DEF[tag]).to_wkt()
+
+
+def crs_alt(tag, k=0):
+    """the same CRS as crs_of(tag), spelled differently (a distinct CRS object, equal under ==)"""
+    from odc.geo.crs import CRS
+
+    if (tag, k % 2) not in _CRS_ALT:
+        _CRS_ALT[(tag, k % 2)] = CRS(crs_alt_def(tag, k))
+    return _CRS_ALT[(tag, k % 2)]
 
 
 def tag_of(crs) -> str:
@@ -67,7 +125,23 @@ def tag_of(crs) -> str:
     for t, v in TAG_EPSG.items():
         if v == e:
             return t
+    if e is None:
+        for t in TAG_DEF:
+            if crs == crs_of(t):
+                return t
     return "?" + str(crs)
+
+
+def isclose_defaults(R=None):
+    """rtol, atol defaults of the installed numpy.isclose (an external library: read from its signature when that
+    is possible, else the documented values, with a note)"""
+    try:
+        p = inspect.signature(np.isclose).parameters
+        return float(p["rtol"].default), float(p["atol"].default)
+    except Exception as e:  # pylint: disable=broad-except
+        if R is not None:
+            R.notes.append(f"numpy.isclose defaults not readable from its signature ({e!r}); documented 1e-05 / 1e-08 used")
+        return 1e-05, 1e-08
 
 
 # ------------------------------------------------------------------ exact affine algebra (oracle side)
@@ -204,11 +278,23 @@ def rect_nonempty(r):
     return r[2] > r[0] and r[3] > r[1]
 
 
+_WP_CACHE = {}
+
+
 def world_pixels(g):
-    """the literal reading: set of world positions of pixel corners, exact"""
-    A = fa(g.affine)
+    """the literal reading: set of world positions of pixel corners, exact (memoised on affine + shape: the same
+    operands and results recur in both operand orders and across the exhaustive families)"""
     ny, nx = g.shape
-    return {fa_apply(A, (i, j)) for i in range(int(nx)) for j in range(int(ny))}
+    key = (tuple(g.affine)[:6], int(ny), int(nx))
+    hit = _WP_CACHE.get(key)
+    if hit is not None:
+        return hit
+    A = fa(g.affine)
+    out = frozenset(fa_apply(A, (i, j)) for i in range(int(nx)) for j in range(int(ny)))
+    if len(_WP_CACHE) > 20000:
+        _WP_CACHE.clear()
+    _WP_CACHE[key] = out
+    return out
 
 
 def small(*gs):
@@ -570,13 +656,28 @@ def run(R: Run):
     run_corpus(R)
 
     # ---------------------------------------------------------------- A. constants
-    p = inspect.signature(np.isclose).parameters
-    rtol, atol = p["rtol"].default, p["atol"].default
-    tol_bb = inspect.signature(GBm.bounding_box_in_pixel_domain).parameters["tol"].default
-    tol_roi = inspect.signature(GeoBox.overlap_roi).parameters["tol"].default
+    rtol, atol = isclose_defaults(R)
+
+    def default_tol_behaves_as(tol):
+        """the DEFAULT tolerance of bounding_box_in_pixel_domain / overlap_roi, established behaviourally (calls
+        without the argument on offsets one ulp below `tol` and exactly `tol`), never from the signature"""
+        ref_ = GeoBox((5, 6), Affine(1.0, 0.0, 0.0, 0.0, -1.0, 0.0), crs_of("1"))
+        lo_, hi_ = (GeoBox((3, 4), Affine(1.0, 0.0, v, 0.0, -1.0, 0.0), crs_of("1")) for v in (math.nextafter(tol, 0), tol))
+
+        def accepts(f):
+            try:
+                f()
+                return True
+            except ValueError:
+                return False
+
+        return all(accepts(lambda: f(lo_)) and not accepts(lambda: f(hi_))
+                   for f in (lambda g_: GBm.bounding_box_in_pixel_domain(g_, ref_), lambda g_: ref_.overlap_roi(g_),
+                             lambda g_: GBm.bounding_box_in_pixel_domain(g_, reference=ref_)))
+
     R.corr("c16 consts",
            lambda: f"{frac_s(atol + rtol * abs(1.0))} {frac_s(atol + rtol * abs(0.0))} "
-                   f"{frac_s(tol_bb) if tol_bb == tol_roi else 'defaults-differ'}", sig="consts")
+                   f"{frac_s(TOL) if default_tol_behaves_as(TOL) else 'default-tol-is-not-1e-8'}", sig="consts")
 
     # ---------------------------------------------------------------- B. numeric helpers (every double is exact here)
     xs = []
@@ -1293,6 +1394,21 @@ def run(R: Run):
                         return
             R.corr(f"c16 encl {enc_gbox(g)} {tag} " + list_s(verts, lambda q: f"{frac_s(q[0])};{frac_s(q[1])}"),
                    real(fe), sig=f"encl|{nm}|{kind}" + ("|nocrs" if tag == "N" or g.crs is None else ""))
+            # the public entry point with its dispatch on the region type (Model/C16Ext: enclosingRegion)
+            import sys as _sys
+
+            _H = _sys.modules[__name__]
+            R.corr(f"c16 enclr {enc_gbox(g)} {EXT.enc_region(_H, region)} []", real(lambda: enc_gbox(g.enclosing(region))),
+                   sig=f"enclr|same-crs|{type(region).__name__}|{kind.split(':')[0]}" + ("|nocrs" if tag == "N" or g.crs is None else ""))
+            if res and isinstance(region, BoundingBox) and tag != "N" and g.crs is not None:
+                EXT.enclosing_world_oracle(R, _H, g, region, res[0], Fr(0), nm.split("|")[0])
+            if res and tag != "N" and g.crs is not None:
+                # theorem enclosing_then_ops_succeed: the result is on the source grid, so every set operation with
+                # the source works, and & is exactly the shared pixels
+                ok_, what_ = EXT.enclosing_followup(_H, g, res[0], Fr(0))
+                R.oracle(ok_, "enclosing-followup", {"op": "encl", "g": gb_dict(g), "kind": kind,
+                                                     "pts": [[float(x), float(y)] for x, y in verts], "crs": str(rc)},
+                         what_, sig="encl-followup")
         else:
             guarded(lambda: fe())
         if tag != "N" and g.crs is not None:
@@ -1420,8 +1536,14 @@ def run(R: Run):
             for b_ in range(-9, 10):
                 R.corr(f"c16 sel {n} {a_} {b_}", lambda: list_s(np.arange(n)[a_:b_].tolist()), sig="spec-sel")
 
+    # ---------------------------------------------------------------- X. growth round 2: entry-point glue (c16_ext.py)
+    import sys
+
+    EXT.run_ext(R, sys.modules[__name__], bases, stats)
+
     # ---------------------------------------------------------------- I. float stream (oracle only)
     float_stream(R, oracle, stats)
+    EXT.float_ext(R, sys.modules[__name__])
 
     R.extra["c16_stats"] = stats
     R.assumptions.append("numpy.isclose(rtol, atol) defaults read from the installed numpy and compared with the model's constants")
@@ -1578,8 +1700,8 @@ def tol_and_snap_float_stream(R: Run):
     rng = R.rng
     SL = Fr(1, 10**6)
     crs = crs_of("1")
-    p = inspect.signature(np.isclose).parameters
-    t1, t0 = Fr(p["atol"].default + p["rtol"].default), Fr(p["atol"].default)
+    rtol_, atol_ = isclose_defaults(R)
+    t1, t0 = Fr(atol_ + rtol_), Fr(atol_)
     tp = Fr(1e-8)
 
     def pyth(pq, k, flip):
@@ -1711,6 +1833,18 @@ def cross_crs_enclosing(R: Run):
              ("EPSG:32633", "EPSG:3857", (12.5, 17.5), (5, 80)), ("EPSG:3577", "EPSG:6933", (115, 150), (-40, -12)),
              ("EPSG:3857", "EPSG:32633", (12.5, 17.5), (5, 75)), ("EPSG:3577", "EPSG:4326", (115, 150), (-40, -12)),
              ("EPSG:6933", "EPSG:3577", (115, 150), (-40, -12))]
+    # CRSs without an EPSG code on one or BOTH sides (PROJ strings, WKT), and a CRS against another spelling of itself
+    EU, AU = ((5, 15), (44, 52)), ((115, 150), (-40, -12))
+    d4, d5, d6 = crs_def("4"), crs_def("5"), crs_def("6")
+    pairs += [(d5, d4, *EU), (d4, d5, *EU), (d6, d5, *AU), (d5, d6, *AU), (d4, "EPSG:4326", *EU), ("EPSG:4326", d4, *EU),
+              (d5, "EPSG:32633", (12.5, 17.5), (44, 52)), ("EPSG:3577", d6, *AU), (d6, "EPSG:3857", *AU), ("EPSG:3857", d5, *EU),
+              (d4, d6, (100, 140), (-30, 30)), (d6, d4, (100, 140), (-30, 30))]
+    pairs += [(crs_alt_def(t, k), crs_def(t), *(AU if t == "6" else EU)) for t in "123456" for k in (0, 1)]
+    short = {d4: "laea-proj", d5: "sinu-proj", d6: "aea-wkt"}
+
+    def nm_crs(c):
+        return short.get(c, c[5:] if c.upper().startswith("EPSG:") else "respelled")
+
     lins = [("north-up", lambda: Affine.identity()), ("mirror-x", lambda: Affine.scale(-1, 1)),
             ("south-up", lambda: Affine.scale(1, -1)), ("rot", lambda: Affine.rotation(rng.choice([30, 45, 90, 17.3, -120, 200]))),
             ("rot", lambda: Affine.rotation(rng.uniform(0, 360))), ("shear", lambda: Affine.shear(rng.choice([10, 25, -35]), 0)),
@@ -1761,7 +1895,7 @@ def cross_crs_enclosing(R: Run):
                 region = GM.point(pts[0][0], pts[0][1], src_crs)
             case = {"op": "encl-region", "g": gb_dict(g), "region": region_dict(region)}
             for key, ok, what in chk_region_enclosing(g, region):
-                R.oracle(ok, key, case, what, sig=f"float|encl-x|{nm}|{k}|{src[5:]}>{dst[5:]}")
+                R.oracle(ok, key, case, what, sig=f"float|encl-x|{nm}|{k}|{nm_crs(src)}>{nm_crs(dst)}")
         except Exception as e:  # pylint: disable=broad-except
             R.oracle(False, "enclosing-raises", {"op": "encl-x", "src": src, "dst": dst, "lon": lon, "lat": lat},
                      f"raised {e!r}")
@@ -1864,6 +1998,10 @@ def eval_case(key, case, verbose=False):
         a, b, c = gs[:3]
         ok3 = same_gbox((a | b) | c, a | (b | c), sl) and same_gbox((a & b) & c, a & (b & c), sl)
         return ok1 and ok2 and ok3, "; ".join(x for x in (w1, w2, "" if ok3 else "not associative") if x)
+    if case.get("op") in ("world-bbox", "encl-world", "member-roundtrip"):
+        import sys
+
+        return EXT.eval_case(sys.modules[__name__], key, case)
     if case.get("op") in ("tol", "roi-tol"):
         from odc.geo import geobox as GBm
 
@@ -1900,6 +2038,10 @@ def eval_case(key, case, verbose=False):
         g = gb_from(case["g"])
         r = g.enclosing(GM.multipoint([tuple(p) for p in case["pts"]], case["crs"]))
         say("enclosing =", r)
+        if key == "enclosing-followup":
+            import sys
+
+            return EXT.enclosing_followup(sys.modules[__name__], g, r, sl)
         return chk_enclosing(g, [tuple(p) for p in case["pts"]], r, sl)
     if case.get("op") == "snap":
         a, b = gb_from(case["a"]), gb_from(case["b"])
